@@ -83,6 +83,31 @@ def route_delay_adjusted_mstdpd (lr_neg_signal_lt lr_pos_signal_lt : Bool) (dpos
 
 end Tables
 
+/-! ### The scalar-reward branch with its actual arguments; a trainer's loop over its cells -/
+section Forward
+variable {α : Type}
+
+/-- Python `abs(x)` -/
+def absv [Neg α] [Max α] (x : α) : α := max x (-x)
+
+/-- `MSTDP.forward` / `MSTDPET.forward`, scalar `signal`, from the reduced traces `zpost`, `zpre`:
+`dpost = zpost * abs(signal * scale)`, `dpre = zpre * abs(signal * scale)`,
+`match (state.lr_post * signal >= 0, state.lr_pre * signal >= 0)` — `scale` enters through its
+absolute value only, the rates are the CELL's (`state.…`). -/
+def mstdp_forward_scalar [Add α] [Mul α] [Neg α] [Max α] [Zero α] [LE α] [DecidableLE α]
+    (lr_post lr_pre signal scale zpost zpre : α) : Parts α :=
+  let dpost := zpost * absv (signal * scale)
+  let dpre := zpre * absv (signal * scale)
+  route_mstdp (decide (0 ≤ lr_post * signal)) (decide (0 ≤ lr_pre * signal)) dpost dpre
+
+/-- `for cell, state, monitors in self:` — every cell is routed with the sign flags of ITS OWN
+state (`state.lr_* >= 0`) and its own magnitudes. -/
+def forward_cells (route : Bool → Bool → α → α → Parts α) (cells : List (Bool × Bool × α × α)) :
+    List (Parts α) :=
+  cells.map fun c => route c.1 c.2.1 c.2.2.1 c.2.2.2
+
+end Forward
+
 /-! ### Tensor-valued `signal`: samples are routed one by one, then concatenated and reduced -/
 section TensorSignal
 variable {α : Type}
